@@ -1,6 +1,7 @@
 """C19 jobs: floating point portable encoding, dissemble/assemble."""
 
 ASSUMPTIONS = [
+    "literal conversion: ArrToSInt/ArrToBInt are not checked here (the folder calls the runtime's own fiArrToSInt / bintFrString); decimal-to-binary correctness of atof itself is libc's",
     "native float/double are IEEE-754 binary32/binary64 (SF_/DF_ constants are read from the real cport.h, not restated)",
     "all loops in these harnesses are bounded by sizeof constants (<= 10); --unwind 12 with unwinding assertions, so a passing run is complete, not bounded",
 ]
@@ -28,4 +29,26 @@ def jobs(tier):
     J("xfloat.df_dissemble_assemble", "h_df_dis_assemble", ["dfDissemble", "dfAssemble", "bfShiftUp", "bfShiftDn"], ["bits"])
     J("xfloat.xsf_dissemble_assemble", "h_xsf_dis_assemble", ["xsfDissemble", "xsfAssemble"], ["raw"])
     J("xfloat.xdf_dissemble_assemble", "h_xdf_dis_assemble", ["xdfDissemble", "xdfAssemble"], ["raw"])
+    # the codecs as the object-file writer/reader (buffer.c) and the runtime (foam_c.c) use them
+    IO = ["--unwind", "12", "--unwinding-assertions"]
+    for nm, entry, fns in (
+            ("buffer.bufWr_bufRd_SFloat_all_2^32", "h_buf_sfloat", ["bufWrSFloat", "bufRdSFloat", "bufAddn", "bufGetn", "bufNeed", "bufNew", "xsfFrNative", "xsfToNative"]),
+            ("buffer.bufWr_bufRd_DFloat_all_2^64", "h_buf_dfloat", ["bufWrDFloat", "bufRdDFloat", "bufAddn", "bufGetn", "bufNeed", "bufNew", "xdfFrNative", "xdfToNative"]),
+            ("foam_c.fiSFloDissemble_Assemble", "h_fi_sflo", ["fiSFloDissemble", "fiSFloAssemble", "sfDissemble", "sfAssemble"]),
+            ("foam_c.fiDFloDissemble_Assemble", "h_fi_dflo", ["fiDFloDissemble", "fiDFloAssemble", "dfDissemble", "dfAssemble"])):
+        js.append({"name": nm, "src": "float_io_h.c", "entry": entry, "functions": fns, "inputs": ["bits", "junk"],
+                   "cbmc": IO, "native": True, "cls": "P", "timeout": 900, "link": ["foam_c.c"],
+                   "assumed": ["allocator stub (stoAlloc/stoResize/stoSize: fresh block of exactly the requested size)"]})
+    # literal conversion: compile-time folder against the runtime, atof uninterpreted (class B: <= 7 characters)
+    for nm, entry, defs, kind in (("literal.fold_ArrToSFlo_equals_runtime", "h_lit_sflo", [], "obligation"),
+                                  ("literal.fold_ArrToDFlo_equals_runtime", "h_lit_dflo", [], "obligation"),
+                                  ("canary.literal.fold_ArrToDFlo", "h_lit_dflo", ["-DCANARY_lit"], "canary")):
+        js.append({"name": nm, "src": "literal_h.c", "entry": entry, "defs": defs, "kind": kind,
+                   "functions": ["cfoldBCall", "cfoldArrToString", "fiArrToSFlo", "fiArrToDFlo", "foamNewSFlo", "foamNewDFlo"],
+                   "inputs": ["n", "c"], "cls": "B", "bound": "literals of <= 7 characters (every byte value)",
+                   "checks": ["--no-standard-checks", "--no-malloc-may-fail"],
+                   "cbmc": ["--object-bits", "14", "--unwind", "10", "--unwinding-assertions"], "timeout": 600,
+                   "link": ["foam_c.c", "strops.c", "util.c:-Dbug=util_c_bug", "stdc.c:-D_do_assert=stdc_c_do_assert"],
+                   "strict_nobody": True, "nobody_ok": [],
+                   "assumed": ["atof is a deterministic function of the string's bytes (__CPROVER_uninterpreted_atof)", "allocator stub"]})
     return js
